@@ -106,9 +106,8 @@ def judge(base, R):
         elif s["sub_time"] > tL:
             problems.append(("opened-after-dispose", s["source"], f"subscription to {s['source']} opened at t={s['sub_time']:g}, after the dispose instant t={tL:g}"))
     term = rec.terminal()
-    open_at_D = sum(1 for s in R.env.sublog if s["sub_step"] < D and (s["unsub_step"] is None or s["unsub_step"] > D - 1))
-    # the outer dispose ticks D after the whole disposal ran; subscriptions closed by it have unsub_step < D, so "open when dispose() was
-    # called" is approximated from below by "closed at the dispose instant or later"
+    # D is ticked after the whole disposal ran, so subscriptions closed by it have unsub_step < D: "open when dispose() was called" is
+    # counted as "opened before D and closed at the dispose instant or later"
     open_at_call = sum(1 for s in R.env.sublog if s["sub_step"] < D and (s["unsub_time"] is None or s["unsub_time"] >= tD))
     nontrivial = (term is None or term[0] > D) and open_at_call > 0
     outcome = (rec.kinds(), term is None or term[0] > D, open_at_call, live, tL - tD, tuple(sorted(set(p[0] for p in problems))))
